@@ -1,8 +1,106 @@
-(** C01 -- N-D form equals the coordinate map defined by the ancillary matrices. (theorems under construction) *)
+(** C01 -- N-D form equals the coordinate map defined by the ancillary matrices. *)
 From Coq Require Import List Arith Lia Bool.
-Require Import V.Base.ListAux V.Base.Radix V.Base.Matrix V.Base.NdArray V.Usid.SortOrder V.Usid.ToND.
+Require Import V.Base.ListAux V.Base.Radix V.Base.Matrix V.Base.NdArray V.Usid.SortOrder V.Usid.ToND V.Usid.ToNDProof V.Usid.Grid.
 Import ListNotations.
+
+(** Headline.  For ANY number of position / spectroscopic dimensions, ANY sizes >= 1 (size-1 dimensions included),
+    ANY storage order of the dimensions on either side (orderp / orders are arbitrary permutations, fastest -> slowest),
+    ANY element type A and ANY main-data contents, provided no side has more dimensions than points:
+    reshape_to_n_dims succeeds, returns the labels in file order (identifiers 0 .. kp+ks-1), an array with one axis per
+    dimension, and the element at the multi-index carried by row r and column c of the ancillary matrices is main[r][c]. *)
+Theorem C01_to_nd_coordinate_map :
+  forall (A : Type) (dflt : A) (szp orderp szs orders : list nat) (main : list (list A)) (pos : list (list nat)),
+    wf_grid szp orderp -> wf_grid szs orders ->
+    length szp <= prod (radices szp orderp) -> length szs <= prod (radices szs orders) ->
+    0 < length szp -> 0 < length szs ->
+    length main = prod (radices szp orderp) -> rect main (prod (radices szs orders)) ->
+    transpose2d 0 pos = grid_spec szp orderp -> ncols pos = length szp ->
+    let spec := grid_spec szs orders in
+    let kp := length szp in let ks := length szs in
+    exists a, to_nd dflt main pos spec false = Ok (a, seq 0 (kp + ks)) /\
+      (forall r c, r < prod (radices szp orderp) -> c < prod (radices szs orders) ->
+         nd_get dflt a (pos_row pos kp r ++ spec_col spec ks c) = nth c (nth r main []) dflt) /\
+      length (nd_shape a) = kp + ks /\
+      (forall r c, r < prod (radices szp orderp) -> c < prod (radices szs orders) ->
+         inbounds (pos_row pos kp r ++ spec_col spec ks c) (nd_shape a)).
+Proof. intros. apply grid_to_nd; assumption. Qed.
+Print Assumptions C01_to_nd_coordinate_map.
+
+(** ... and "the unique row r whose indices are (i_1..i_k)": every in-bounds coordinate vector is carried by exactly one row. *)
+Theorem C01_unique_row_for_every_coordinate :
+  forall sz order, wf_grid sz order -> forall ip, inbounds ip sz ->
+  exists r, r < prod (radices sz order) /\
+    map (fun d => nth r (grid_row sz order d) 0) (seq 0 (length sz)) = ip /\
+    forall r', r' < prod (radices sz order) ->
+      map (fun d => nth r' (grid_row sz order d) 0) (seq 0 (length sz)) = ip -> r' = r.
+Proof. exact grid_rows_bijection. Qed.
+Print Assumptions C01_unique_row_for_every_coordinate.
+
+(** The same statement relative to the sort order the code computes, for arbitrary matrices (this is the lemma the
+    grid theorem instantiates; it does not assume a regular grid, only consistency with the computed order). *)
+Theorem C01_to_nd_relative_to_computed_order :
+  forall (A : Type) (d : A) (main : list (list A)) (pos spec : list (list nat)),
+    let N := length main in let M := ncols main in let kp := ncols pos in let ks := length spec in
+    let so_p := get_sort_order (transpose2d 0 pos) in let so_s := get_sort_order spec in
+    let dims_p := get_dimensionality (transpose2d 0 pos) so_p in let dims_s := get_dimensionality spec so_s in
+    rect main M -> perm_of so_p kp -> perm_of so_s ks -> prod dims_p = N -> prod dims_s = M ->
+    Forall (fun r => 0 < r) dims_p -> Forall (fun r => 0 < r) dims_s ->
+    (forall r dd, r < N -> dd < kp -> nth dd (nth r pos []) 0 = nth (index_of dd so_p) (digits dims_p r) 0) ->
+    (forall c e, c < M -> e < ks -> nth c (nth e spec []) 0 = nth (index_of e so_s) (digits dims_s c) 0) ->
+    exists a, to_nd d main pos spec false = Ok (a, seq 0 (kp + ks)) /\
+      (forall r c, r < N -> c < M -> nd_get d a (pos_row pos kp r ++ spec_col spec ks c) = nth c (nth r main []) d) /\
+      length (nd_shape a) = kp + ks /\
+      (forall r c, r < N -> c < M -> inbounds (pos_row pos kp r ++ spec_col spec ks c) (nd_shape a)).
+Proof. intros. apply to_nd_coordinates; assumption. Qed.
+Print Assumptions C01_to_nd_relative_to_computed_order.
+
+(** Views of the dataset object.  The sorted view is the file-order view permuted by ONE permutation (v_order): labels,
+    sizes and array alike; the same labelled coordinates address the same element in both views. *)
+Theorem C01_sorted_view_is_one_permutation :
+  forall (A : Type) (d : A) (main : list (list A)) (pos spec : list (list nat)) (sd : bool) (v : view A),
+    view_init d main pos spec sd = Ok v ->
+    let s := if v_sorted v then view_toggle v else v in          (* the file-order state *)
+    let t := view_toggle s in                                    (* the sorted state *)
+    view_labels t = map (fun i => nth i (view_labels s) 0) (v_order v) /\
+    view_sizes t = map (fun i => nth i (view_sizes s) 0) (v_order v) /\
+    nd_shape (view_form t) = map (fun i => nth i (nd_shape (view_form s)) 1) (v_order v) /\
+    (forall j, inbounds j (nd_shape (view_form t)) ->
+        nd_get d (view_form t) j = nd_get d (view_form s) (scatter (v_order v) j)).
+Proof.
+  intros A d main pos spec sd v H. unfold view_init in H.
+  destruct (to_nd d main pos spec false) as [[orig labs]|e] eqn:E; [|discriminate]. injection H as <-.
+  destruct sd; cbn; (split; [reflexivity|]; split; [reflexivity|]; split; [reflexivity|]);
+    intros j Hj; apply nd_transpose_get; exact Hj.
+Qed.
+Print Assumptions C01_sorted_view_is_one_permutation.
 
 Theorem C01_toggle_involutive : forall (A : Type) (v : view A), view_toggle (view_toggle v) = v.
 Proof. intros A [s o f l z r]. unfold view_toggle. simpl. now rewrite Bool.negb_involutive. Qed.
 Print Assumptions C01_toggle_involutive.
+
+(** any number of toggles interleaved with (eager or lazy) reads: what a read returns depends only on the parity of toggles *)
+Inductive vop := Toggle | Read (lazy : bool).
+Definition vstep {A} (v : view A) (o : vop) : view A := match o with Toggle => view_toggle v | Read _ => v end.
+Fixpoint toggles (ops : list vop) : nat := match ops with [] => 0 | Toggle :: r => S (toggles r) | Read _ :: r => toggles r end.
+
+Theorem C01_reads_after_any_history :
+  forall (A : Type) (ops : list vop) (v : view A),
+    fold_left vstep ops v = if Nat.even (toggles ops) then v else view_toggle v.
+Proof.
+  intros A. induction ops as [|[|l] ops IH]; intros v; cbn [fold_left vstep toggles]; [reflexivity| |apply IH].
+  rewrite IH. rewrite Nat.even_succ, <- Nat.negb_even.
+  destruct (Nat.even (toggles ops)); simpl; [reflexivity| apply C01_toggle_involutive].
+Qed.
+Print Assumptions C01_reads_after_any_history.
+
+(** non-vacuity: 2x3x4 positions stored in the cyclic order [2;0;1] (fastest dimension is file dimension 2), 2 spectral points *)
+Example C01_example :
+  let pos := grid_pos [2;3;4] [2;0;1] in
+  let spec := grid_spec [2] [0] in
+  let main := map (fun r => [2 * r; 2 * r + 1]) (seq 0 24) in
+  match to_nd 0 main pos spec false with
+  | Ok (a, labs) => nd_shape a = [2;3;4;2] /\ labs = [0;1;2;3] /\
+                    nd_get 0 a [1;2;3;1] = nth 1 (nth (3 + 4 * 1 + 8 * 2) main []) 0
+  | Err _ => False
+  end.
+Proof. vm_compute. repeat split. Qed.
